@@ -263,7 +263,7 @@ func (c *Ctx) constStrings(v ssa.Value, d int, seen map[ssa.Value]bool) []string
 			}
 			var cal *ssa.Function
 			if cl != nil {
-				cal = cl.Call.StaticCallee()
+				cal = calleeOf(&cl.Call)
 			}
 			if cal == nil || cal.Blocks == nil || !c.InModule(cal) {
 				unresolved = true
@@ -414,7 +414,7 @@ func (c *Ctx) errorSources(r *ssa.Return) []string {
 				walk(e, d+1)
 			}
 		case *ssa.Call:
-			if cal := y.Call.StaticCallee(); cal != nil && c.InModule(cal) {
+			if cal := calleeOf(&y.Call); cal != nil && c.InModule(cal) {
 				set[c.Name(cal)] = true
 			} else {
 				set[calleeFullName(&y.Call)] = true
